@@ -251,6 +251,11 @@ def jobs(tier: str) -> list[dict]:
 
     out += c04_tls.jobs(tier)
     out += c04_genfail.jobs(tier)
+    # the thread-safe client's send_packet(timeout=T) under lock contention (time waited for the send lock belongs to the budget): the
+    # send-lock scenarios of the thread harness (props/c12_threads.py), also run under C11 and C12
+    from . import c12_threads
+
+    out += [j for j in c12_threads.jobs(tier) if j.get("kind") == "sendlock"]
     return out
 
 
@@ -478,6 +483,10 @@ def run_job(job: dict) -> JobResult:
         from . import c04_genfail
 
         return c04_genfail.run_job(job)
+    if job["kind"] == "sendlock":
+        from . import c12_threads
+
+        return c12_threads.run_job(job)
     res = JobResult()
     if job["kind"] == "sync":
         run_sync_job(job, res)
@@ -496,6 +505,10 @@ def replay(doc: dict) -> tuple[bool, str]:
         from . import c04_genfail
 
         return c04_genfail.replay(doc)
+    if rp.get("part") == "threads":
+        from . import c12_threads
+
+        return c12_threads.replay(doc)
     ctx = Ctx(rp["choices"])
     if rp["kind"] == "sync":
         obs = run_sync(ctx, rp["cfg"])
